@@ -51,22 +51,32 @@ func New(config ...Config) fiber.Handler {
 
 		// Encrypt response cookies when the stack returns - also when it unwinds because a handler panicked:
 		// the reply a recover middleware in front of this one then sends carries the cookies set so far
-		defer c.Response().Header.VisitAllCookie(func(key, _ []byte) {
-			keyString := string(key)
-			if !isDisabled(keyString, cfg.Except) {
+		defer func() {
+			// Every Set-Cookie line is taken as it stands: a name can occur more than once (set for two paths through
+			// the header API), and looking a cookie up by name only ever reaches the first line of a name.
+			var lines [][]byte
+			encrypted := false
+			c.Response().Header.VisitAllCookie(func(key, value []byte) {
 				cookieValue := fasthttp.Cookie{}
-				cookieValue.SetKeyBytes(key)
-				if c.Response().Header.Cookie(&cookieValue) {
-					encryptedValue, err := cfg.Encryptor(string(cookieValue.Value()), cfg.Key)
-					if err != nil {
-						panic(err)
-					}
-
-					cookieValue.SetValue(encryptedValue)
-					c.Response().Header.SetCookie(&cookieValue)
+				if isDisabled(string(key), cfg.Except) || cookieValue.ParseBytes(value) != nil {
+					lines = append(lines, append([]byte(nil), value...))
+					return
+				}
+				encryptedValue, err := cfg.Encryptor(string(cookieValue.Value()), cfg.Key)
+				if err != nil {
+					panic(err)
+				}
+				cookieValue.SetValue(encryptedValue)
+				lines = append(lines, cookieValue.AppendBytes(nil))
+				encrypted = true
+			})
+			if encrypted {
+				c.Response().Header.DelAllCookies()
+				for _, line := range lines {
+					c.Response().Header.AddBytesV(fiber.HeaderSetCookie, line)
 				}
 			}
-		})
+		}()
 
 		// Continue stack
 		return c.Next()
